@@ -197,3 +197,16 @@ Print Assumptions C13_orig_frame_value.
 Print Assumptions C13_orig_frame.
 Print Assumptions C13_read_names.
 Print Assumptions C13_roundtrip_names.
+
+(* ---- useful mnemonic and mnemonic comparison are the Python's ---------------------------------
+   useful_of / mnemonic_compare equal the definitions re-translated on every run from
+   HeaderItem.useful_mnemonic and SectionItems.mnemonic_compare (translators/funcs.py ->
+   Gen/Funcs.v). *)
+Require Import Funcs FuncsPinItems.
+Theorem C13_useful_current : forall orig, Items.useful_of orig = py_useful_mnemonic orig.
+Proof. exact useful_of_pin. Qed.
+Theorem C13_compare_current : forall transforms one two,
+  Items.mnemonic_compare transforms one two = py_mnemonic_compare transforms one two.
+Proof. exact mnemonic_compare_pin. Qed.
+Print Assumptions C13_useful_current.
+Print Assumptions C13_compare_current.
